@@ -81,9 +81,20 @@ def d1(cx: Cx, ob: Ob) -> None:
     check_split(cx, ob)
 
 
-def check_split(cx: Cx, ob: Ob) -> None:
+def check_split(cx: Cx, ob: Ob, callers: str = "converter") -> None:
+    """``callers``: whose calls of ``_split`` the property speaks about - the converter's (parse_curie and what goes
+    through it) or the reference classes' (from_curie, string validation).  An opt-in keyword that one side passes
+    and the other leaves at its default is read as that side's calls bind it."""
     fn = cx.fn(f"{API}._split", ob.id)
-    s = cx.summary(fn, ob.id)
+    from ..rules import new_keyword_bindings
+
+    in_conv = lambda g: g.cls is not None and g.cls.name == "Converter"  # noqa: E731
+    binds = new_keyword_bindings(cx, fn, in_conv if callers == "converter" else (lambda g: not in_conv(g) and g.module is fn.module))
+    for b in binds:
+        _check_split(cx, ob, fn, cx.summary(fn, ob.id, bind=b) if b else cx.summary(fn, ob.id))
+
+
+def _check_split(cx: Cx, ob: Ob, fn, s) -> None:
     curie, sep = ("param", fn.params[0].name), ("param", "sep")
     rets = [(t, ctx) for t, ctx in s.returns() if not is_const(t, None)]
     if not rets:
@@ -616,6 +627,20 @@ def _judge_scan(ob: Ob, fn, prov, probe, line, rec, atoms, rows, who: str = "get
             if op(c) == "cmp" and c[1] in ("in", "not in") and c[2] == probe and op(c[3]) == "attr" and c[3][2] in ("prefix", "uri_prefix"):
                 ob.violate(fn.qualname, where(fn, line), f"{who} tests `{show(c)[:50]}`: `in` on the canonical {c[3][2]} (a str) is a SUBSTRING test - every name contained in a canonical prefix, the empty one included, finds that record", witness="'PO' finds the record of 'APO'; '' finds the first record", detail="substring:" + c[3][2])
                 return
+    for a in atoms:
+        for c in subterms(a):
+            if op(c) == "cmp" and c[1] in ("==", "in") and probe not in (c[2], c[3]):
+                side = [x for x in (c[2], c[3]) if x != probe and any(y == probe for y in subterms(x)) and not any(op(y) == "attr" and y[2] in CURIE_SIDE for y in subterms(x))]
+                other = [x for x in (c[2], c[3]) if any(op(y) == "attr" and y[2] in CURIE_SIDE for y in subterms(x))]
+                if side and other and op(side[0]) in ("slice", "ifexp", "call", "concat", "bin", "item"):
+                    ob.violate(
+                        fn.qualname,
+                        where(fn, line),
+                        f"{who} compares the records' names with `{show(side[0])[:60]}`, a rewritten form of the name it is asked for: a record registered under the name as given is not found (or another record is), and names that no record carries find one",
+                        witness="the name as asked for differs from its rewritten form exactly where the rewrite applies (a trailing delimiter, a case variant, surrounding blanks)",
+                        detail="probe-rewritten",
+                    )
+                    return
     cover = {a: cmp_cover(prov, a, probe) for a in atoms}
     if any(r == "?" for c in cover.values() for r, _ in c):
         ob.undecide(f"{who} compares against an unrecognised term")
